@@ -121,6 +121,16 @@ Section WithHash.
     flat_map (fun s => walk_triples 0 1 (rev (s_stack s))) ss.
 End WithHash.
 
+(* A sample without locations is kept as one "n/a" frame (since the fix of the empty-stack loss):
+   depth := len(sample.Location); if depth == 0 { depth = 1 }; the frame's name is "n/a".
+   [na] = city.CH64("n/a").  The stored tree of a profile is post_process on the normalized samples. *)
+Definition eff_stack (na : N) (s : sample) : list N :=
+  match s_stack s with [] => [na] | l => l end.
+Definition normalize (na : N) (ss : list sample) : list sample :=
+  map (fun s => {| s_stack := eff_stack na s; s_values := s_values s |}) ss.
+Definition stored_tree (h : N -> N -> N) (na : N) (ntypes : nat) (ss : list sample) : tree :=
+  post_process h ntypes (normalize na ss).
+
 (* ------------------------------------------------------------------ function table
    funcs[fnId] = name for every frame; emitted sorted by id (descending) *)
 Fixpoint fn_upsert (m : list (N * Z)) (id : N) (name : Z) : list (N * Z) :=
@@ -174,6 +184,9 @@ Definition weight (k : nat) (ss : list sample) : Z :=
 
 (* all self values together: every sample with a frame adds its value to exactly one self (its leaf) *)
 Definition self_sum (k : nat) (t : tree) : Z := sumZ (map (fun n => fst (val_at k n)) t).
+
+(* weight of sample type k carried by ALL samples of the profile *)
+Definition full_weight (k : nat) (ss : list sample) : Z := sumZ (map (fun s => nth k (s_values s) 0%Z) ss).
 
 (* boolean oracle used on OBSERVED rows *)
 Definition node_conserves (k : nat) (t : tree) (n : node) : bool :=
